@@ -1,10 +1,81 @@
 import GormModel.Drv.Util
+import GormModel.Model.Heap
 open Lean
+open Gorm.Heap
+namespace HC06
+open Gorm.Drv
+
+def natList? (j : Json) : Option (List Nat) := do
+  (← jArr? j).toList.mapM jNat?
+
+def parseOp (j : Json) : Option Op := do
+  let a ← jArr? j
+  let name ← jStr? (arg a 0)
+  let n (i : Nat) : Option Nat := jNat? (arg a i)
+  match name with
+  | "session" | "debug" => some (.session (← n 1))
+  | "newdb" => some (.newdb (← n 1))
+  | "ctx" => some (.ctx (← n 1))
+  | "begin" => some (.begin (← n 1))
+  | "cond" => some (.cond (← n 1) (← n 2) (← n 3))
+  | "condg" => some (.condG (← n 1) (← n 2) (← n 3))
+  | "order" => some (.order (← n 1) (← n 2))
+  | "orderc" => some (.orderC (← n 1) (← n 2) (← n 3))
+  | "group" => some (.group (← n 1) (← n 2))
+  | "having" => some (.having (← n 1) (← n 2))
+  | "havingg" => some (.havingG (← n 1) (← n 2))
+  | "ret" => some (.ret (← n 1) (← natList? (arg a 2)))
+  | "retstar" => some (.retStar (← n 1))
+  | "limit" => some (.limit (← n 1) (← n 2))
+  | "offset" => some (.offset (← n 1) (← n 2))
+  | "select" => some (.select (← n 1) (← natList? (arg a 2)))
+  | "selects" => some (.selectS (← n 1) (← n 2) (← n 3) (← natList? (arg a 4)))
+  | "omit" => some (.omit (← n 1) (← natList? (arg a 2)))
+  | "joins" => some (.joins (← n 1) (← n 2))
+  | "scopes" => some (.scopes (← n 1) (← n 2))
+  | "distinct" => some (.distinct (← n 1))
+  | "table" => some (.table (← n 1) (← n 2))
+  -- chain calls whose effect is not part of the rendered statement: getInstance + an unrendered field
+  | "unscoped" | "model" | "preload" | "onconflict" => some (.unscoped (← n 1))
+  | "lock" => some (.lock (← n 1) (← n 2))
+  | "render" => some (.render (← n 1) (← n 2))
+  | "skip" => some .skip
+  | _ => none
+
+def parseSlice (j : Json) : Option (List Nat × Nat) := do
+  let a ← jArr? j
+  some (← natList? (arg a 0), ← jNat? (arg a 1))
+
+def tokStr : Tok → String
+  | .lp => "(" | .rp => ")" | .and => "AND" | .or => "OR" | .not => "NOT"
+  | .cond n => s!"c{n}" | .sel n => s!"s{n}" | .omit n => s!"o{n}" | .distinct => "DISTINCT"
+  | .count n => s!"COUNT{n}" | .countD n => s!"COUNTD{n}" | .countStar => "COUNT*"
+  | .table n => s!"t{n}" | .join n => s!"j{n}" | .whereKw => "WHERE" | .groupKw => "GROUP"
+  | .gcol n => s!"g{n}" | .havingKw => "HAVING" | .orderKw => "ORDER" | .ocol n => s!"ob{n}" | .pk => "PK"
+  | .limit n => s!"LIMIT{n}" | .offset n => s!"OFFSET{n}" | .lock n => s!"LOCK{n}"
+  | .retKw => "RETURNING" | .rcol n => s!"rc{n}" | .retStar => "RET*" | .fin n => s!"FIN{n}"
+
+def toksJ (ts : List Tok) : Json := strListJ (ts.map tokStr)
+
+end HC06
+
 namespace Gorm.Drv
 
-/-- line-protocol handler for C06 (ops are JSON arrays `[opname, args…]`); returns `none` for ops it does not own -/
+open HC06 in
+/-- `["c06.run", fuel, slices, ops]` → `{outs: [[opIndex, tokensInHistory, tokensAlone]…], writes, arrays}`;
+    `["c06.cfg"]` → the copy / merge discipline the model currently reads from the regenerated facts -/
 def handleC06 (op : String) (args : Array Json) : Option Json := do
   match op with
+  | "c06.run" =>
+    let fuel ← jNat? (arg args 1)
+    let slices ← (← jArr? (arg args 2)).toList.mapM parseSlice
+    let ops ← (← jArr? (arg args 3)).toList.mapM parseOp
+    let h : History := ⟨slices, ops⟩
+    let S := run genAll fuel h
+    let outs := (compareAll genAll fuel h).map (fun (i, a, b) => Json.arr #[natJ i, toksJ a, toksJ b])
+    some (Json.mkObj [("outs", Json.arr outs.toArray), ("writes", natJ S.heap.writes), ("arrays", natJ S.heap.arrs.length)])
+  | "c06.cfg" =>
+    some (Json.str (toString (repr genAll)))
   | _ => none
 
 end Gorm.Drv
